@@ -2,9 +2,11 @@ package generator
 
 import (
 	"fmt"
+	"go/constant"
 	"go/types"
 	"regexp"
 	"sort"
+	"strconv"
 	"strings"
 	"unicode"
 	"unicode/utf8"
@@ -157,6 +159,19 @@ func (c Cache) Imports() []string {
 	return imports
 }
 
+// ConstLiteral returns the exact value of an enum constant, as a literal
+// suitable for generated code : contrary to constant.Value.String(), long strings
+// are not shortened and floats are not approximated (nor written as fractions,
+// which SQL evaluates as an integer division).
+func ConstLiteral(v constant.Value) string {
+	if v.Kind() == constant.Float {
+		if f, exact := constant.Float64Val(v); exact {
+			return strconv.FormatFloat(f, 'g', -1, 64)
+		}
+	}
+	return v.ExactString()
+}
+
 var reEnums = regexp.MustCompile(`#\[(\w+)\.(\w+)\]`)
 
 // ReplaceEnums replace enum placeholders #[Type.Val] by their values
@@ -170,7 +185,7 @@ func ReplaceEnums(ana *analysis.Analysis, content string) string {
 		}
 		enumValue := enum.Get(varName)
 		// SQL uses single quotes for string literals
-		value := strings.ReplaceAll(enumValue.Const.Val().ExactString(), `"`, `'`)
+		value := strings.ReplaceAll(ConstLiteral(enumValue.Const.Val()), `"`, `'`)
 		return fmt.Sprintf("%s /* %s.%s */", value, typeName, varName)
 	})
 }
